@@ -23,7 +23,31 @@ SPLITS = ["6h", "7h", "12h", "d", "2d"]
 
 
 @st.composite
+def _book_last(draw):
+    """split build whose last asset is an order book with chronological orders (one per interval and some
+    spanning): in early intervals its trailing variables have no mapping row"""
+    g = draw(gen.grids(min_T=6, max_T=14, freqs=["h", "h", "2h"]))
+    T = g["T"]
+    prices = {"p0": draw(gen.price_series(T))}
+    cx = gen.Cx(g, ["n0"], prices)
+    assets = gen.markets(cx, draw=draw)
+    if draw(st.booleans()):
+        assets.append(gen.a_simple(draw, cx, "a0"))
+    cuts = sorted(set(draw(st.lists(st.integers(1, T - 1), min_size=1, max_size=4))))
+    bounds = [0] + cuts + [T]
+    orders = []
+    for s, e in zip(bounds[:-1], bounds[1:]):
+        orders.append([s, e, gen.rate(draw, cx, 0.5, 3) * draw(st.sampled_from([1, -1])), draw(gen.dyadic(0, 12))])
+    assets.append({"type": "orderbook", "name": "book", "nodes": ["n0"], "orders": orders, "full_exec": False,
+                   "wacc": draw(st.sampled_from([0.0, 0.05]))})
+    return {"grid": g, "prices": cx.prices, "assets": assets, "markets": True,
+            "split": draw(st.sampled_from(["3h", "4h", "6h", "7h"]))}
+
+
+@st.composite
 def _strategy(draw):
+    if draw(st.integers(0, 9)) == 0:
+        return draw(_book_last())
     spec = draw(gen.portfolios_all())
     spec["split"] = draw(st.one_of(st.none(), st.none(), st.none(), st.sampled_from(SPLITS)))
     return spec
@@ -102,13 +126,20 @@ def check(spec):
         if off != len(c):
             out.fail("stand-alone problems have %d variables in total, portfolio has %d" % (off, len(c)))
     else:
-        mp = r.op.mapping
+        # the split problem stacks the variables interval by interval; inside an interval the
+        # interval problem's own mapping (checked by the monolithic cases) names each asset's variables
         for a in spec["assets"]:
-            idx = np.unique(mp.index[mp["asset"] == a["name"]].values.astype(int))
-            exp = float(-c[idx] @ x[idx]) if len(idx) else 0.0
+            exp = 0.0
+            off = 0
+            for o_ in r.op.ops:
+                mpk = o_.mapping
+                idx = np.unique(mpk.index[mpk["asset"] == a["name"]].values.astype(int)) if len(mpk) else np.array([], int)
+                if len(idx):
+                    exp += float(-np.asarray(o_.c, float)[idx] @ x[off + idx])
+                off += len(o_.c)
             got = float(dcf[a["name"]].values.astype(float).sum())
             if abs(exp - got) > tol:
-                out.fail("asset %s (split): DCF total %.9g != -c.x over its mapped variables %.9g" % (a["name"], got, exp))
+                out.fail("asset %s (split): DCF total %.9g != -c.x over its own variables of all intervals %.9g" % (a["name"], got, exp))
     # zero outside window
     for a in spec["assets"]:
         if a["type"] == "scaled":
